@@ -66,7 +66,7 @@ theorem iterAfterBody_eq (rb : Res) :
       (match rb.err with
        | some e => if isSentinel e then
             (if rb.st.c.brkD > 0 then .stop { rb.st with c := { rb.st.c with brkD := rb.st.c.brkD - 1 } } else .next rb.st)
-          else .abort { rb.st with c := { rb.st.c with err := some e } }
+          else .abort { rb.st with c := { rb.st.c with err := some e, brkD := rb.st.c.brkD - 1 } }
        | none => if rb.st.c.brkD > 0 then .stop { rb.st with c := { rb.st.c with brkD := rb.st.c.brkD - 1 } } else .next rb.st) := by
   unfold iterAfterBody
   cases rb.err with
